@@ -18,10 +18,12 @@ MODELLED = ("modelled and proved (each model a hand-written mirror tied by a dif
             "statements (Members), parameter lists with defaults and packs (ParamsX), template parameter lists (Template), enumerator lists and enum "
             "declarations (EnumList, EnumDecl), the three using statements (Using), qualified names (PQName), the namespace header (NsHeader), the "
             "dispatch loop of parse (TopLoop) and the collecting visitor as a fold over the block forest (Fold). "
-            "NOT modelled (decided by the AST-first search only): operator and conversion-operator names, decltype, requires-clauses and concepts' "
-            "bodies beyond their token values, trailing return types, msvc calling conventions, abbreviated templates, deduction guides, explicit "
-            "instantiations, out-of-class method definitions, attributes other than on enumerators, preprocessor directives, and the location / "
-            "doxygen plumbing of the handlers")
+            "Also modelled: operator functions (OperatorFn), method definitions outside their class (MethodImpl), explicit instantiations "
+            "(TemplateInst), template statements and concepts (TemplateStmt), requires-clauses (Requires, under C14); the keyword handlers in front "
+            "of a declaration are translated from the code (Gen/Dispatch.v). "
+            "NOT modelled (decided by the AST-first search only): decltype, trailing return types, msvc calling conventions, abbreviated templates, "
+            "deduction guides, constructors / destructors defined outside their class, names with template arguments in declarator position, "
+            "attributes other than on enumerators, preprocessor directives, and the location / doxygen plumbing of the handlers")
 ASSUMPTIONS = c02.ASSUMPTIONS + ["search programs use the supported positions of ignored decorations (before a declaration; static_assert as a statement)"]
 
 KNOWN_CLASSIFIERS = {
@@ -2446,7 +2448,9 @@ LEVEL_TEXT = ("PARTIAL. Proved in Coq, for inputs of any size: a declaration sta
               "kind, with the flags and base type of the statement, its own value tokens, the body skipped exactly "
               "(declaration_statement_decodes, declarator_kinds_follow_the_source, over the declarator round trip of C02); the same for typedef "
               "statements, parameter lists with defaults, template parameter lists, enumerator lists, enum declarations and the using statements; "
-              "the specifier flags are the memberships of the keywords written, in any order; and the collecting visitor places every payload in "
+              "operator functions, method definitions outside their class (qualified names), explicit instantiations, what a `template` statement "
+              "is handed on to, concepts, and -- on the handlers as TRANSLATED from the code on every run (Gen/Dispatch.v) -- the extern / inline / "
+              "typedef dispatch in front of a declaration; the specifier flags are the memberships of the keywords written, in any order; and the collecting visitor places every payload in "
               "the scope in which it was written, in source order, for any nesting and re-opening of namespaces and extern blocks "
               "(items_land_where_written). Tie: every model is extracted and run beside parse_string / the real method on valid and mutated token "
               "lists, and the mirrored functions are AST-digest pinned. What is not modelled (operators, decltype, requires, trailing returns, "
